@@ -7,7 +7,10 @@ from typing import Any, Dict, List, Optional
 from vfw import gprtree
 from vfw.exactlp import LP, frac
 
-BUILD_PATHS = ["bulk", "one_by_one", "mets_first", "mets_implicit_ids"]
+# "switch_after": the model is populated on the other solver interface and moved to the spec's interface at the end;
+# "switch_twice": populated on the spec's interface, moved to the other one and back (the public `model.solver` setter)
+BUILD_PATHS = ["bulk", "one_by_one", "mets_first", "mets_implicit_ids", "switch_after", "switch_twice"]
+_OTHER = {"glpk": "glpk_exact", "glpk_exact": "glpk"}
 
 
 def reset_globals():
@@ -51,8 +54,11 @@ def build_model(spec, path: str = "bulk", set_solver: bool = True):
     from cobra.core import Group
 
     model = Model(spec.get("id", "m"), name=spec.get("name"))
-    if set_solver and spec.get("solver", "glpk") != "glpk":
-        model.solver = spec["solver"]
+    want = spec.get("solver", "glpk")
+    if set_solver:
+        first = _OTHER[want] if path == "switch_after" else want
+        if first != "glpk":
+            model.solver = first
     mets = {m["id"]: make_metabolite(m) for m in spec["mets"]}
     if path in ("mets_first", "mets_implicit_ids"):
         model.add_metabolites(list(mets.values()))
@@ -94,6 +100,11 @@ def build_model(spec, path: str = "bulk", set_solver: bool = True):
         model.add_cons_vars([model.problem.Constraint(expr, lb=c["lb"], ub=c["ub"], name=c["name"])])
     model.notes = _copy.deepcopy(spec.get("notes", {}))
     model.annotation = _copy.deepcopy(spec.get("annotation", {}))
+    if set_solver and path == "switch_after":
+        model.solver = want
+    elif set_solver and path == "switch_twice":
+        model.solver = _OTHER[want]
+        model.solver = want
     return model
 
 
